@@ -15,6 +15,8 @@ CLAUSE = ("(RF-TAB) vbi_proxyd_check_msg has an explicit case for every VBIPROXY
 CLAUSE = CLAUSE + (" (RF-STATE) a client known to be in a holder state (GRANTED, RECLAIM, RELEASE) is moved to a state in which the "
                    "token counts as free only in the confirmed handlers of that client's own messages; (RF-LOCK) every daemon "
                    "function releases what it locked, never locks a mutex it holds, and the lock order is acyclic.")
+CLAUSE = CLAUSE + (" (RF-NULL) every call of a capture function that asserts or dereferences its context is made with p_capture "
+                   "under a dominating p_capture != NULL test (p_capture is NULL while no client has requested a service).")
 NOT_DECIDED = "service to the other clients after a fault (liveness), timeouts, the scheduler's fairness."
 
 UNIT = "daemon/proxyd.c"
@@ -37,6 +39,7 @@ def run(ctx, run):
     _errors_close(ctx, run, P.need("vbi_proxyd_handle_client_sockets", UNIT))
     _drain_before_update(ctx, run, take)
     _holder_leaves_by_own_message(ctx, run)
+    _capture_null_discipline(ctx, run)
     # 'nor stops serving': a mutex taken twice or kept at a return blocks the daemon for everybody (shared with C18)
     from . import C18
     C18.lock_discipline(ctx, run)
@@ -710,3 +713,62 @@ def _holder_leaves_by_own_message(ctx, run):
         if k not in used:
             raise AnalysisBroken("confirmed token transition %s -> %s in %s() no longer found" % (k[1], k[2], k[0]))
     run.floor("holder -> free transitions of the token state", n, 2)
+
+
+CAPTURE_RUNNING = {"vbi_proxyd_forward_data": "called only for a device whose descriptor is in the select set or from its acquisition "
+                   "thread; both exist only between vbi_proxy_start_acquisition and vbi_proxy_stop_acquisition, i.e. while "
+                   "p_capture is non-NULL"}
+
+
+def _capture_null_discipline(ctx, run):
+    """RF-NULL (contradiction rule): PROXY_DEV.p_capture is NULL whenever no client has requested a
+    service - a state any client can produce and keep while sending requests.  The capture API is
+    split into functions that tolerate a NULL context (vbi_capture_fd, _get_scanning, _delete)
+    and functions that assert or dereference it; each call of the latter kind with p_capture is
+    dominated by a p_capture != NULL test (some sites test, so the others must)."""
+    P = ctx.prog
+
+    def tolerant(g):
+        pn = g.params[0]["name"]
+        pos = flow.elem_pos(g)
+        for i, e in enumerate(g.exprs):
+            if e["k"] == "mem" and pos.get(i):
+                r = ex.root(g, i)
+                if r is not None and g.exprs[r].get("name") == pn:
+                    if not any(a.rel == "!=" and a.R is not None and a.R.const == 0 and pn in a.L.locals and not a.L.fields
+                               for a in atoms.atoms_at(g, i)):
+                        return False
+        return not any(g.exprs[i]["k"] == "call" and g.exprs[i].get("callee") == "__assert_fail" for _, i in flow.all_events(g))
+    n = n_intol = 0
+    used = set()
+    for f in P.funcs:
+        if f.unit != UNIT:
+            continue
+        for bid, i in flow.all_events(f):
+            e = f.exprs[i]
+            if not (e["k"] == "call" and (e.get("callee") or "").startswith("vbi_capture_") and e.get("c")
+                    and ex.pretty(f, e["c"][0]).endswith("p_capture")):
+                continue
+            n += 1
+            g = P.func_for(f, e["callee"])
+            if g is None:
+                raise AnalysisBroken("%s: definition not found" % e["callee"])
+            if tolerant(g):
+                continue
+            n_intol += 1
+            run.touch(f)
+            key = "RF-NULL:%s:%s" % (f.name, e["callee"])
+            guarded = any(a.rel == "!=" and a.R is not None and a.R.const == 0 and a.L.has("PROXY_DEV.p_capture")
+                          for a in atoms.atoms_at(f, i))
+            if guarded:
+                run.holds("RF-NULL", key, "`%s` is dominated by p_capture != NULL" % ex.pretty(f, i)[:50], ex.loc(f, i))
+            elif f.name in CAPTURE_RUNNING:
+                used.add(f.name)
+                run.holds("RF-NULL", key, "TRUSTED: %s" % CAPTURE_RUNNING[f.name], ex.loc(f, i), nontrivial=False)
+            else:
+                run.violation("RF-NULL", key, "%s() calls %s (p_capture) without a dominating p_capture != NULL test; %s asserts / "
+                              "dereferences its context, and p_capture is NULL while no client has a service (a client that "
+                              "connected with services == 0 can trigger this request): the daemon aborts for all clients"
+                              % (f.name, e["callee"], e["callee"]), ex.loc(f, i), witness={"function": f.name, "callee": e["callee"]})
+    run.floor("capture API calls on p_capture in the daemon", n, 12)
+    run.floor("calls of NULL-intolerant capture functions", n_intol, 6)
